@@ -66,11 +66,17 @@ def scenario(big: bool = False) -> Any:
             d["A"] = k + 2
             d["N"] = None
             d["stop"] = stag["stop"]
-        d.update({"ends": False, "ack_type": "when_saved", "horizon": HORIZON, "drain": 0.0})
+        d.update({"ends": False, "horizon": HORIZON, "drain": 0.0})
+        if d["ack_type"] != "when_saved":
+            # an acknowledgement that fails BEFORE the function ran aborts the message's processing - what "completion" means then is not
+            # this property's subject; early acknowledge types are generated with acknowledgements that succeed (fast or slow)
+            for m in d["msgs"]:
+                if str(m.get("ack")) in ("sync_fail", "async_fail", "cancelled_future"):
+                    m["ack"] = "slow" if m["ack"] == "async_fail" else "sync"
         return d
 
     # a few payloads the worker skips (malformed bytes delivered as plain bytes, incl. short ones such as b"-1" / b"")
-    msg = cm.message(kinds=("async", "async", "async", "async", "async", "bad"), outs=("ret", "ret", "ValueError", "NoResult"), acks=("sync", "sync", "sync", "async", "async", "future", "deferred", "sync_fail", "async_fail", "cancelled_future"),
+    msg = cm.message(kinds=("async", "async", "async", "async", "async", "bad"), outs=("ret", "ret", "ValueError", "NoResult"), acks=("sync", "sync", "sync", "async", "async", "future", "deferred", "sync_fail", "async_fail", "cancelled_future", "slow"),
                      durs=(0.0, 0.05, 0.3, 1.0, 4.0, "never"), at=cm.times(60), cleanups=(0, 0, 0, 0.2), timeouts=(None, None, None, 0.3))
     return st.fixed_dictionaries({
         "A": st.integers(1, 5 if big else 3), "P": st.integers(0, 4 if big else 2),
@@ -80,7 +86,8 @@ def scenario(big: bool = False) -> Any:
         "stop": cm.times(60), "has_stop": st.booleans(),
         "park": st.sampled_from([False, False, False, True]),
         "clock_step": st.sampled_from([0, 0, 0, -30.0, -0.5, 3600.0]),
-        "neighbour": st.sampled_from([False, False, False, True]),       # a second, busy worker in the same process
+        "neighbour": st.sampled_from([False, False, False, True]),
+        "ack_type": st.sampled_from(["when_saved", "when_saved", "when_executed", "when_received"]),       # a second, busy worker in the same process
         # what the broker's listen() does when its pending fetch gets cancelled at the stop: nothing, a clean-up round trip of 3 s / 20 s, or a failure
         "cancel_cleanup": st.sampled_from([None, None, None, 3.0, 20.0, "raise"]),
         "staggered": st.fixed_dictionaries({"on": st.sampled_from([False, False, False, True]), "k": st.integers(1, 3),
@@ -119,7 +126,19 @@ def run_case(sc: Dict[str, Any]) -> Outcome:
             s, s_kind = tN, "N"
     taken = [e[2] for n, e in takes if wh.is_good(specs[e[2]])]      # skipped payloads are no accepted work
     enter = {e[2]: e[0] for e in tr if e[1] == "enter"}
-    fin = {e[2]: e[0] for e in tr if e[1] == "ack"}
+    # a message is finished when it has been acknowledged AND everything else about it is over (under when_received / when_executed the
+    # acknowledgement comes before the end of the processing); a slow acknowledgement is finished when its coroutine is
+    entered = {e[2] for e in tr if e[1] == "enter"}
+    # (an acknowledgement that FAILS before the function started ends that message's processing on the spot)
+    acked = {e[2] for e in tr if e[1] == "ack"} & ({e[2] for e in tr if e[1] == "exit"} |
+                                                  {i_ for i_, sp_ in enumerate(specs) if i_ not in entered and str(sp_.get("ack")) in ("sync_fail", "async_fail", "cancelled_future")})
+    fin = {}
+    for e in tr:
+        if e[2] in acked and e[1] in ("ack", "ack_done", "exit", "save_end", "save_failed"):
+            fin[e[2]] = max(fin.get(e[2], 0.0), e[0])
+    for i_, sp_ in enumerate(specs):
+        if sp_.get("ack") == "slow" and i_ in fin and not any(e[1] == "ack_done" and e[2] == i_ for e in tr):
+            fin[i_] = float("inf")
     inf = float("inf")
     # (e)
     if N:
@@ -148,7 +167,7 @@ def run_case(sc: Dict[str, Any]) -> Outcome:
             for i in taken:
                 evs = [(n, e[1]) for n, e in enumerate(tr) if e[2] == i]
                 ks = [k for n, k in evs if n < iret]
-                if "exit" not in ks or "ack" not in ks:
+                if "exit" not in ks or "ack" not in ks or (specs[i].get("ack") == "slow" and "ack_done" not in ks):
                     out.add("C05.b", f"accepted message {i} not completed (events before return: {ks})")
     T0 = max([s] + [enter[i] for i in taken if i in enter])
     bound = max(T0, min(D, T0 + Wv)) + 1.0
